@@ -942,10 +942,103 @@ def check_C13(tier, seed):
     floor(rp, "acceptance-probes", 40, "acceptance probes compiled")
     return rp.finish()
 
+def cx_generate(seed, nprog, steps, out_path, configs):
+    """Write one TU with `nprog` random programs (constexpr data), their compile-time evaluation and the run-time comparison."""
+    import random
+    rnd = random.Random(seed)
+    lines = ['#include "cx_interp.hpp"', ""]
+    checks = []
+    samples = []
+    tuples = set()
+    for k in range(nprog):
+        T, N, M = configs[k % len(configs)]
+        st = []
+        for i in range(steps):
+            op = rnd.randrange(28)
+            if rnd.random() < 0.4:
+                op |= 64
+            st.append("{%d,%d,%d,%d}" % (op, rnd.randrange(50), rnd.randrange(9), 1 + rnd.randrange(90)))
+            tuples.add("%s|N%d|M%d|op%d|%s" % (T, N, M, op & 63, "b" if op & 64 else "a"))
+        lines.append("constexpr Prog<%d> prog_%d = {{ %s }};" % (steps, k, ", ".join(st)))
+        lines.append("constexpr Obs<%d> ct_%d = run<%s, %d, %d> (prog_%d);" % (steps, k, T, N, M, k))
+        checks.append('  bad += check_program<%s, %d, %d> (%d, "%s/N%d,%d", prog_%d, ct_%d);' % (T, N, M, k, T, N, M, k, k))
+        if k < 2:
+            samples.append("%s N=(%d,%d): %s" % (T, N, M, " ".join(st[:8])))
+    lines += ["", "int main ()", "{", "  int bad = 0;"] + checks
+    lines += ['  std::printf ("{\\"type\\":\\"cx\\",\\"programs\\":%d,\\"steps\\":%d,\\"bad\\":%%d}\\n", bad);' % (nprog, steps),
+              '  std::printf ("{\\"type\\":\\"done\\",\\"chunks\\":1,\\"deaths\\":0}\\n");', "  return 0;", "}"]
+    text = "\n".join(lines) + "\n"
+    if not os.path.exists(out_path) or open(out_path).read() != text:
+        with open(out_path, "w") as f:
+            f.write(text)
+    return samples, tuples
+
+
+def check_C08(tier, seed):
+    import re
+    rp = Report("C08", tier, seed, "exploration")
+    rp.rule = ("seeded random programs (30 steps over two containers small_vector<T,N> / small_vector<T,M>, T in {int, literal non-trivial type}, N,M in {0,1,2,4} incl. pairs; 28 op kinds: push/emplace/insert (value, n, range, "
+               "aliasing)/erase/pop/clear/resize/reserve/shrink_to_fit/assign/append/cross-capacity copy+move assign/swap/copy+move construction/comparisons/erase/erase_if) are emitted as constexpr data; each program is "
+               "evaluated by the compiler's constant evaluator into a constexpr array of per-step observations (returned offsets, sizes, content checksums, growth capacities, front/back) -- the evaluator rejects UB, out-of-lifetime access "
+               "and unreleased allocations -- and again at run time on a laundered copy; every observation must agree. Not compared (unspecified): inlined(), moved-from contents, capacity after a move/swap. "
+               "tuple = (element type, N, M, op kind)")
+    rp.assumptions = ["clang++ -std=c++2b is excluded (toolchain defect, DESIGN.md 2.4)"]
+    configs = [("int", 2, 5), ("Lit", 2, 5), ("int", 0, 3), ("Lit", 0, 4), ("int", 4, 4), ("Lit", 1, 1), ("int", 1, 0), ("Lit", 4, 2), ("int", 0, 0), ("Lit", 2, 0)]
+    ntu = 16 if tier == "quick" else 64
+    nprog = 30 if tier == "quick" else 80
+    steps = 30
+    gen_dir = os.path.join(svlib.CACHE, "gen-cx-%s-%d" % (tier, seed))
+    os.makedirs(gen_dir, exist_ok=True)
+    builds = [("g++", "c++20")] if tier == "quick" else [("g++", "c++20"), ("g++", "c++23"), ("clang++", "c++20")]
+    jobs = []
+    for i in range(ntu):
+        src = os.path.join(gen_dir, "cx_%02d.cpp" % i)
+        samples, tup = cx_generate(seed * 1000 + i, nprog, steps, src, configs)
+        for t in tup:
+            rp.coverage["tuples"][t] = 1
+        if i == 0:
+            rp.coverage["samples"] += samples
+        cc, std = builds[i % len(builds)]
+        flags = ["-std=" + std, "-O0", "-I", os.path.join(svlib.HARNESS, "src")]
+        flags += ["-fconstexpr-ops-limit=1000000000", "-fconstexpr-loop-limit=10000000"] if cc == "g++" else ["-fconstexpr-steps=1000000000"]
+        jobs.append({"src": src, "cc": cc, "flags": flags, "name": "cx/%02d/%s-%s" % (i, cc, std), "idx": i})
+    specs = [{"src": j["src"], "cc": j["cc"], "flags": j["flags"], "name": "cx", "extra_inputs": [os.path.join(svlib.HARNESS, "src", "cx_interp.hpp")]} for j in jobs]
+    t0 = time.time()
+    bins = build_many(specs)
+    log("[C08] compiled (= constant-evaluated) %d program TUs in %.1fs" % (len(bins), time.time() - t0))
+    cmds, names = [], []
+    programs = 0
+    for j, b in zip(jobs, bins):
+        if isinstance(b, BuildError):
+            # the constant evaluator rejected a program: UB / leak / non-constant expression
+            ids = sorted(set(re.findall(r"(?:ct|prog)_(\d+)", b.diag)))
+            first = [l for l in b.diag.splitlines() if "error" in l][:3]
+            rp.add_violation("cx|C08|constant-evaluation-rejected|%s" % j["cc"],
+                             "the constant evaluator of %s rejected program(s) %s of %s: %s" % (j["cc"], ",".join(ids[:5]) or "?", os.path.basename(j["src"]), " || ".join(first)[:1500]),
+                             {"engine": "cx", "replay_cmd": [j["cc"]] + j["flags"] + ["-I", svlib.HEADER_DIR, "-fsyntax-only", j["src"]]})
+            continue
+        cmds.append([b]); names.append(j["name"])
+    for res, nm in zip(run_many(cmds, timeout=1200), names):
+        meta = {"engine": "cx", "config": nm, "config_class": nm.split("/")[-1], "mode": "cx", "replay_cmd": res["cmd"]}
+        parse_engine_output(res, rp, "C08", meta)
+        for line in res["out"].splitlines():
+            if line.startswith('{"type":"cx"'):
+                d = json.loads(line)
+                programs += d["programs"]
+                rp.coverage["evaluations"] += d["programs"] * d["steps"]
+    for k in range(nprog):
+        T, N, M = configs[k % len(configs)]
+        rp.coverage["tuples"]["%s|N%d|M%d" % (T, N, M)] = 1
+    rp.coverage["counters"]["programs"] = programs
+    rp.coverage["counters"]["steps"] = programs * steps
+    rp.extra["compilers"] = sorted(set("%s -std=%s" % b for b in builds))
+    floor(rp, "programs", 100, "programs evaluated at compile time and at run time")
+    return rp.finish()
+
 
 CHECKS = {
     "C01": check_C01, "C02": check_C02, "C03": check_C03, "C04": check_C04, "C05": check_C05, "C06": check_C06,
-    "C07": check_C07, "C09": check_C09, "C10": check_C10, "C11": check_C11, "C15": check_C15, "C12": check_C12, "C13": check_C13, "C14": check_C14, "C16": check_C16, "C17": check_C17, "C18": check_C18, "C19": check_C19, "C20": check_C20,
+    "C07": check_C07, "C08": check_C08, "C09": check_C09, "C10": check_C10, "C11": check_C11, "C15": check_C15, "C12": check_C12, "C13": check_C13, "C14": check_C14, "C16": check_C16, "C17": check_C17, "C18": check_C18, "C19": check_C19, "C20": check_C20,
 }
 
 
